@@ -35,7 +35,7 @@ LEVEL_NOTE = "Trusts ref_decl/ref_validate; values are plain ASCII so that exact
 DESIGN_REF = "DESIGN.md §3 C04"
 EXHAUSTIVE = {"quick": "every declared constraint of every class x both routes, 2 base instances each", "thorough": "same x 8 base instances"}
 MIN_COUNTERS = {"quick": {"must_reject": 9000, "must_accept": 2500, "route_kwargs": 4000, "route_etree": 6000, "monitor_init_postcondition_calls": 30000},
-                "thorough": {"must_reject": 45000, "must_accept": 12000, "route_kwargs": 20000, "route_etree": 30000, "monitor_init_postcondition_calls": 150000}}
+                "thorough": {"must_reject": 200000, "must_accept": 40000, "route_kwargs": 100000, "route_etree": 120000, "monitor_init_postcondition_calls": 600000}}
 
 
 def shards(tier):
@@ -410,7 +410,7 @@ def run_shard(ctx):
     online.set_ctx(ctx)
     online.install_init_monitor()
     classes = list(ref_decl.all_classes().items())
-    reps = 2 if ctx.tier == "quick" else 8
+    reps = 2 if ctx.tier == "quick" else 40
     for ci, (name, cls) in enumerate(classes):
         if ci % ctx.nshards != ctx.shard:
             continue
